@@ -583,6 +583,11 @@ func (e *Exec) cleanModel(m map[string]string) map[string]string {
 	for k, v := range e.mapPerms {
 		out["maporder:"+k] = fmt.Sprint(v)
 	}
+	for k, v := range e.cfg {
+		if strings.HasPrefix(k, "pin.") {
+			out[strings.TrimPrefix(k, "pin.")] = v
+		}
+	}
 	return out
 }
 
